@@ -291,7 +291,7 @@ pub fn checks() -> Vec<Box<dyn DynCheck>> {
 }
 
 pub fn run(ctx: &Ctx) {
-    ctx.set_rule("generated: scale K0..K3, delta 1.01..1000, backlog 0..1000 (rarely 2^40, usize::MAX - 1, usize::MAX: nothing merges before a read), histories of insert / insert_weighted (weights 1e-6..1e6, in 40 % of the histories all multiplied by 10^e with e in -30..=30; in 6 % of the histories all weights, also the unit ones, are multiplied by 1e-310 and thus lie around the subnormal border, where only count/min/max/is_empty and the twin comparison are checked) / seeded blocks of unit inserts / zero-weight inserts / reads (quantile, cdf, aggregates: they force merges) / clear. Oracle: count() == sum of weights (exact for unit weights, rel 1e-9 otherwise), sum()/mean() within 1e-9 of the accumulated |x*w|, min()/max() exactly the extremes, every read bit-identical to a twin digest fed the same history without the zero-weight inserts, is_empty() iff no positive weight since creation/clear (checked after every op without forcing a merge). Non-trivial: >= 2 reads (merges) and fusion happened (n_centroids < inserts). Distinct = hash of the case.");
+    ctx.set_rule("generated: scale K0..K3, delta 1.01..1000, backlog 0..1000 (rarely 2^62, usize::MAX - 1, usize::MAX: nothing merges before a read), histories of insert / insert_weighted (weights 1e-6..1e6, in 40 % of the histories all multiplied by 10^e with e in -30..=30; in 6 % of the histories all weights, also the unit ones, are multiplied by 1e-310 and thus lie around the subnormal border, where only count/min/max/is_empty and the twin comparison are checked) / seeded blocks of unit inserts / zero-weight inserts / reads (quantile, cdf, aggregates: they force merges) / clear. Oracle: count() == sum of weights (exact for unit weights, rel 1e-9 otherwise), sum()/mean() within 1e-9 of the accumulated |x*w|, min()/max() exactly the extremes, every read bit-identical to a twin digest fed the same history without the zero-weight inserts, is_empty() iff no positive weight since creation/clear (checked after every op without forcing a merge). Non-trivial: >= 2 reads (merges) and fusion happened (n_centroids < inserts). Distinct = hash of the case.");
     ctx.run_regressions(&[&C16]);
     let t = ctx.tier;
     ctx.run_random(&C16, t.pick(60_000, 1_000_000), move || strategy(t));
